@@ -91,7 +91,7 @@ func TestThroughMediaStream(t *testing.T) {
 	evid.Rule(ruleText)
 	work := workDir(t)
 	n, synced := 0, 0
-	evid.Checks(60, 600)
+	evid.Checks(120, 1200)
 	rapid.Check(t, func(rt *rapid.T) {
 		n++
 		c := genStreamCase(rt, n)
